@@ -51,6 +51,24 @@ impl AstLowering {
         Ok(lowered)
     }
 
+    /// Lower the object of an index or slice expression.
+    ///
+    /// The emitter picks the indexing helper from the object's type. Lowering knows that type for variables,
+    /// literals and nested index expressions; for field accesses and call results it does not (`Unknown`), and only
+    /// then the checker's type is used. It is a fallback rather than an override because the spans of f-string
+    /// sub-expressions are not unique, so the checker's entry for such a span may belong to another expression.
+    fn lower_indexed_object(&mut self, object: &Spanned<ast::Expr>) -> Result<TypedExpr, LoweringError> {
+        let mut lowered = self.lower_expr(&object.node)?;
+        if matches!(lowered.ty, IrType::Unknown) {
+            if let Some(info) = &self.type_info {
+                if let Some(res_ty) = info.expr_type(object.span) {
+                    lowered.ty = self.lower_resolved_type(res_ty);
+                }
+            }
+        }
+        Ok(lowered)
+    }
+
     /// Lower an expression to IR.
     ///
     /// Handles all expression types including:
@@ -337,8 +355,7 @@ impl AstLowering {
             }
 
             ast::Expr::Index(o, i) => {
-                // Use the checker's type of the object: the emitter picks the indexing helper from it.
-                let obj = self.lower_expr_spanned(o)?;
+                let obj = self.lower_indexed_object(o)?;
                 let idx = self.lower_expr(&i.node)?;
                 let elem_ty = match &obj.ty {
                     IrType::List(e) => (**e).clone(),
@@ -530,7 +547,7 @@ impl AstLowering {
             }
 
             ast::Expr::Slice(target, slice) => {
-                let target_expr = self.lower_expr_spanned(target)?;
+                let target_expr = self.lower_indexed_object(target)?;
                 let start = slice
                     .start
                     .as_ref()
